@@ -70,7 +70,7 @@ PROPS = {
  },
  "C18": {
   "modules": ["OsmoVerif.Props.C18", "OsmoVerif.Props.TieGenMint"],
-  "min_theorems": 24,
+  "min_theorems": 17,
   "fingerprints": [],
   "engines": [{"name": "mint", "kind": "app", "n": {"quick": 3000, "thorough": 60000}, "shards": {"quick": 4, "thorough": 16}}],
   "rule": "histories = random valid parameter set (proportions summing to 1 with 1..18 decimals, reduction factor/period, start epoch, 0..4 weighted "
